@@ -1,5 +1,204 @@
-(* Props/C10.v -- property C10 (stub while the proofs are being built) *)
-From EP Require Import Base.Bytes Builder.Model Builder.Spec.
-Theorem C10_stub : forall c n, final_size c n = link_len c + vlan_len c + net_len c + transport_len c + n.
-Proof. exact (fun c n => eq_refl). Qed.
-Print Assumptions C10_stub.
+(* Props/C10.v -- property C10: PacketBuilder emits consistent, parseable packets of
+   the announced size.  Statements only; every proof is `exact <lemma>`.
+
+   Model : Builder/Model.v   (final_write_with_net as `build_run`/`build`, final_size;
+           Ipv4Header / TcpHeader encoders of C08, extension chains of C12, checksum
+           call sequences of C09, SingleVlanHeader / Ipv6Header encoders of C15)
+   Spec  : Builder/Spec.v    (layout offsets, pseudo headers, `verifies`, `spec_outcome`,
+           `cfg_wf` = type invariants of the crate's structs + builder typestate)
+   All theorems hold for every well-formed configuration (all header field values,
+   all options / extension headers, both host endiannesses) and every payload.
+
+   Sinks: `build` is what reaches an infallible sink.  That write(io::Write),
+   write_to_vec and write_to_slice deliver the same bytes / the same verdict, that a
+   slice shorter than size() is refused untouched and that the inner slice writer
+   cannot fail once size() bytes are reserved is C16_builder_space /
+   C16_builder_write_fault (quantified over arbitrary part encodings, hence over
+   these); the correspondence run compares all three sinks on every case.
+
+   NOT proved here, checked on every case of the correspondence run instead
+   (crate parser = wire reference decoder of C03 = `expected` view of Builder/Spec.v;
+   independent RFC reference encoder and RFC 1071 verification in tools/props/c10.py):
+     C10_parse_back (full):  forall c p bs, cfg_wf c = true -> parse_pre c (len p) = true ->
+        build e c p = BOk bs ->
+        (match c_link c with LkEthernet2 _ _ => wire_ethernet bs | LkLinuxSll _ _ _ => wire_linux_sll bs
+                           | LkNone => wire_from_ip bs end) = VOk (expected c (len p))
+     C10_consistent for the TCP / ICMPv4 / ICMPv6 checksums (`verifies (pseudo ++ drop off_transport bs)`)
+     and for the ether type / next-header bytes of the link, VLAN and extension headers.
+   Proved parts of parse-back: C10_parse_back_ipv4_header_partial, C10_parse_back_tcp_partial. *)
+From EP Require Import Base.Bytes Checksum.Spec Checksum.Model.
+From EP Require Roundtrip.Common Roundtrip.Tcp Roundtrip.Ipv4 ExtChain.Spec ExtChain.Model BitFields.Model.
+From EP Require Import Parse.Types Parse.View Parse.WireSpec.
+From EP Require Import Builder.Model Builder.Spec Builder.Proofs Builder.ProofsCk.
+Local Open Scope N_scope.
+
+(* ---- outcome: encodable configurations give exactly size() bytes, the others the documented error *)
+Theorem C10_outcome : forall e c p, cfg_wf c = true ->
+  match spec_outcome c (len p) with
+  | OOk => exists bs, build e c p = BOk bs /\ len bs = final_size c (len p)
+  | OErr er => build e c p = BErr er
+  end.
+Proof. exact build_outcome. Qed.
+Print Assumptions C10_outcome.
+
+Theorem C10_size : forall e c p bs, cfg_wf c = true -> build e c p = BOk bs -> len bs = final_size c (len p).
+Proof. exact build_size. Qed.
+Print Assumptions C10_size.
+
+(* no unwrap / array access / u16 underflow / to_bytes of the model fails *)
+Theorem C10_never_panics : forall e c p s, cfg_wf c = true -> build e c p <> BPanic s.
+Proof. exact build_never_panics. Qed.
+Print Assumptions C10_never_panics.
+
+(* Err <-> the configuration cannot be encoded; the inner range checks of
+   UdpHeader/TcpHeader/Icmpv6Type::calc_checksum_* never fire (no such error in spec_outcome) *)
+Theorem C10_errors : forall e c p er, cfg_wf c = true ->
+  (build e c p = BErr er <-> spec_outcome c (len p) = OErr er).
+Proof. exact build_error_iff. Qed.
+Print Assumptions C10_errors.
+
+(* ... which is: payload too large for the IP length field, ICMPv6 in IPv4, or an
+   extension chain not covered by the walk -- the last only for write(ip_number, ..)
+   with an ip number that is itself an extension header number *)
+Theorem C10_errors_classified : forall c plen er, cfg_wf c = true -> spec_outcome c plen = OErr er ->
+  (exists vt, er = EPayloadLen (ip_payload_len c plen) (ip_payload_max c) vt /\
+              ip_payload_max c < ip_payload_len c plen) \/
+  (er = EIcmpv6InIpv4 /\ is_icmpv6 (c_transport c) = true /\ exists h x, c_net c = NtIpv4 h x) \/
+  (exists w k, er = EIpv6Exts w /\ c_transport c = TrNone k /\ ExtChain.Spec.is_ext_number k = true).
+Proof. exact errors_classified. Qed.
+Print Assumptions C10_errors_classified.
+
+Theorem C10_no_walk_error_with_transport : forall c plen w, cfg_wf c = true ->
+  (forall k, c_transport c <> TrNone k) ->
+  spec_outcome c plen <> OErr (EIpv6Exts w) /\ spec_outcome c plen <> OErr (EIpv4Exts w).
+Proof. exact no_walk_error_with_transport. Qed.
+Print Assumptions C10_no_walk_error_with_transport.
+
+(* ---- consistency of the derived fields *)
+(* IPv4 (with or without options / authentication header): at off_net stands the
+   to_bytes of the configured header (= RFC 791 layout by C08_Ipv4_spec) with total
+   length = the actual length (< 2^16: not truncated), protocol = what follows, and
+   a header checksum that verifies; all other fields as supplied *)
+Theorem C10_consistent_ipv4 : forall e c p bs h x,
+  cfg_wf c = true -> build e c p = BOk bs -> c_net c = NtIpv4 h x ->
+  let hf := v4_final e h x (c_transport c) (len p) in
+  Ipv4.wf_ip4 hf = true /\
+  Ipv4.ip4_to_bytes hf = Some (take (Ipv4.ip4_header_len h) (drop (off_net c) bs)) /\
+  verifies (take (Ipv4.ip4_header_len h) (drop (off_net c) bs)) /\
+  Ipv4.i4_total_len hf = len bs - off_net c /\ off_net c + Ipv4.ip4_header_len h <= len bs /\
+  len bs - off_net c < 65536 /\
+  Ipv4.i4_protocol hf = snd (ExtChain.Model.set_next_headers4 x (tr_ip_number (c_transport c))) /\
+  Ipv4.i4_source hf = Ipv4.i4_source h /\ Ipv4.i4_destination hf = Ipv4.i4_destination h /\
+  Ipv4.i4_time_to_live hf = Ipv4.i4_time_to_live h /\ Ipv4.i4_identification hf = Ipv4.i4_identification h /\
+  Ipv4.i4_dscp hf = Ipv4.i4_dscp h /\ Ipv4.i4_ecn hf = Ipv4.i4_ecn h /\ Ipv4.i4_options hf = Ipv4.i4_options h /\
+  Ipv4.i4_dont_fragment hf = Ipv4.i4_dont_fragment h /\ Ipv4.i4_more_fragments hf = Ipv4.i4_more_fragments h /\
+  Ipv4.i4_fragment_offset hf = Ipv4.i4_fragment_offset h.
+Proof. exact ipv4_consistent. Qed.
+Print Assumptions C10_consistent_ipv4.
+
+Theorem C10_consistent_ipv6 : forall e c p bs h x,
+  cfg_wf c = true -> build e c p = BOk bs -> c_net c = NtIpv6 h x ->
+  let hf := v6_final h x (c_transport c) (len p) in
+  take 40 (drop (off_net c) bs) = BitFields.Model.Ipv6Header_to_bytes hf /\
+  off_net c + 40 <= len bs /\
+  BitFields.Model.v6_payload_length hf = len bs - off_net c - 40 /\ len bs - off_net c - 40 < 65536 /\
+  BitFields.Model.v6_next_header hf = snd (ExtChain.Model.set_next_headers x (tr_ip_number (c_transport c))) /\
+  BitFields.Model.v6_source hf = BitFields.Model.v6_source h /\
+  BitFields.Model.v6_destination hf = BitFields.Model.v6_destination h /\
+  BitFields.Model.v6_hop_limit hf = BitFields.Model.v6_hop_limit h /\
+  BitFields.Model.v6_traffic_class hf = BitFields.Model.v6_traffic_class h /\
+  BitFields.Model.v6_flow_label hf = BitFields.Model.v6_flow_label h.
+Proof. exact ipv6_consistent. Qed.
+Print Assumptions C10_consistent_ipv6.
+
+(* UDP (any link / VLAN / options / extension headers in front): ports as supplied,
+   length field = 8 + payload length (< 2^16: the `as u16` never wraps on success),
+   checksum never 0 and verifying with the pseudo header of RFC 768 / RFC 8200 8.1 *)
+Theorem C10_consistent_udp : forall e c p bs sp dp,
+  cfg_wf c = true -> bytes_ok p -> build e c p = BOk bs -> c_transport c = TrUdp sp dp ->
+  match c_net c with
+  | NtArp _ => True
+  | NtIpv4 h _ =>
+      8 + len p < 65536 /\ exists ck, ck <> 0 /\ ck < 65536 /\
+        drop (off_transport c) bs = udp_to_bytes sp dp (8 + len p) ck ++ p /\
+        verifies (pseudo4 (Ipv4.i4_source h) (Ipv4.i4_destination h) 17 (8 + len p) ++ drop (off_transport c) bs)
+  | NtIpv6 h _ =>
+      8 + len p < 65536 /\ exists ck, ck <> 0 /\ ck < 65536 /\
+        drop (off_transport c) bs = udp_to_bytes sp dp (8 + len p) ck ++ p /\
+        verifies (pseudo6 (BitFields.Model.v6_source h) (BitFields.Model.v6_destination h) (8 + len p) 17
+                  ++ drop (off_transport c) bs)
+  end.
+Proof. exact udp_consistent. Qed.
+Print Assumptions C10_consistent_udp.
+
+(* Ipv4Header::calc_header_checksum + to_bytes, for every well-formed header *)
+Theorem C10_ipv4_header_checksum : forall e h, Ipv4.wf_ip4 h = true ->
+  exists ck hb, Ipv4.ip4_calc_checksum e h = Some ck /\ ck < 65536 /\
+    Ipv4.ip4_to_bytes (Ipv4.ip4_set_checksum h ck) = Some hb /\ folds_to_ffff hb = true.
+Proof. exact ip4_header_verifies. Qed.
+Print Assumptions C10_ipv4_header_checksum.
+
+(* ---- parse-back, proved parts (C08 decoders on the built bytes) *)
+Theorem C10_parse_back_ipv4_header_partial : forall e c p bs h x,
+  cfg_wf c = true -> build e c p = BOk bs -> c_net c = NtIpv4 h x ->
+  Ipv4.ip4_from_slice (drop (off_net c) bs)
+  = Roundtrip.Common.Ok (Ipv4.ip4_norm (v4_final e h x (c_transport c) (len p)),
+                         drop (off_net c + Ipv4.ip4_header_len h) bs).
+Proof. exact ipv4_header_decodes. Qed.
+Print Assumptions C10_parse_back_ipv4_header_partial.
+
+Theorem C10_parse_back_tcp_partial : forall e c p bs t,
+  cfg_wf c = true -> build e c p = BOk bs -> c_transport c = TrTcp t ->
+  match c_net c with
+  | NtArp _ => True
+  | _ => exists ck, ck < 65536 /\
+           Tcp.from_slice (drop (off_transport c) bs)
+           = Roundtrip.Common.Ok (Tcp.norm (tcp_set_checksum t ck), p)
+  end.
+Proof. exact tcp_decodes. Qed.
+Print Assumptions C10_parse_back_tcp_partial.
+
+(* statement pinning *)
+Check (C10_size : forall e c p bs, cfg_wf c = true -> build e c p = BOk bs -> len bs = final_size c (len p)).
+Check (C10_never_panics : forall e c p s, cfg_wf c = true -> build e c p <> BPanic s).
+Check (C10_errors : forall e c p er, cfg_wf c = true ->
+  (build e c p = BErr er <-> spec_outcome c (len p) = OErr er)).
+
+(* ---- non-vacuity: the crate's documentation example (ethernet2 / ipv4 / udp, 8 byte payload),
+   the same with a VLAN tag and ICMPv6 (error), and a payload one byte too long *)
+Definition ex_ip4 : Ipv4.Ipv4Header :=
+  {| Ipv4.i4_dscp := 0; Ipv4.i4_ecn := 0; Ipv4.i4_total_len := 0; Ipv4.i4_identification := 0;
+     Ipv4.i4_dont_fragment := true; Ipv4.i4_more_fragments := false; Ipv4.i4_fragment_offset := 0;
+     Ipv4.i4_time_to_live := 20; Ipv4.i4_protocol := 255; Ipv4.i4_header_checksum := 0;
+     Ipv4.i4_source := [192; 168; 1; 1]; Ipv4.i4_destination := [192; 168; 1; 2];
+     Ipv4.i4_options := {| Ipv4.i4o_len := 0; Ipv4.i4o_buf := repeat 0 40 |} |}.
+Definition ex_cfg : cfg :=
+  mkCfg (LkEthernet2 [1; 2; 3; 4; 5; 6] [7; 8; 9; 10; 11; 12]) VlNone
+        (NtIpv4 ex_ip4 (ExtChain.Model.mkExts4 None)) (TrUdp 21 1234).
+Definition ex_payload : bytes := [1; 2; 3; 4; 5; 6; 7; 8].
+Definition ex_bytes : bytes :=
+  [7; 8; 9; 10; 11; 12; 1; 2; 3; 4; 5; 6; 8; 0;
+   69; 0; 0; 36; 0; 0; 64; 0; 20; 17; 227; 117; 192; 168; 1; 1; 192; 168; 1; 2;
+   0; 21; 4; 210; 0; 16; 103; 127; 1; 2; 3; 4; 5; 6; 7; 8].
+Example C10_ex_wf : cfg_wf ex_cfg = true /\ parse_pre ex_cfg 8 = true /\ bytes_ok ex_payload.
+Proof. split; [vm_compute; reflexivity|split; [vm_compute; reflexivity|]]. apply bytes_okb_spec. vm_compute. reflexivity. Qed.
+Example C10_ex_build : build LE ex_cfg ex_payload = BOk ex_bytes /\ build BE ex_cfg ex_payload = BOk ex_bytes
+  /\ final_size ex_cfg 8 = 50 /\ spec_outcome ex_cfg 8 = OOk.
+Proof. repeat split; vm_compute; reflexivity. Qed.
+(* the full parse-back statement holds on the example *)
+Example C10_ex_parse_back : wire_ethernet ex_bytes = VOk (expected ex_cfg 8).
+Proof. vm_compute. reflexivity. Qed.
+Example C10_ex_verifies :
+  verifies (take 20 (drop 14 ex_bytes)) /\
+  verifies (pseudo4 [192; 168; 1; 1] [192; 168; 1; 2] 17 16 ++ drop 34 ex_bytes).
+Proof. split; vm_compute; reflexivity. Qed.
+(* error outcomes *)
+Definition ex_cfg_icmp6 : cfg :=
+  mkCfg (c_link ex_cfg) (VlSingle (BitFields.Model.mkVlan 0 false 5 0)) (c_net ex_cfg) (TrIcmpv6 (IcEchoRequest 1 2)).
+Example C10_ex_icmpv6_in_ipv4 : cfg_wf ex_cfg_icmp6 = true /\
+  build LE ex_cfg_icmp6 [1] = BErr EIcmpv6InIpv4 /\ spec_outcome ex_cfg_icmp6 1 = OErr EIcmpv6InIpv4 /\
+  len (snd (build_run LE ex_cfg_icmp6 [1])) = 38.
+Proof. repeat split; vm_compute; reflexivity. Qed.
+Example C10_ex_too_long : spec_outcome ex_cfg 65508 = OErr (EPayloadLen 65516 65515 VtIpv4PayloadLength)
+  /\ spec_outcome ex_cfg 65507 = OOk.
+Proof. split; vm_compute; reflexivity. Qed.
